@@ -324,7 +324,11 @@ func (x *Exec) cell(st *State, obj *Object) Val {
 	if obj.Global != nil {
 		gpk := x.w.ByPath[obj.Global.Pkg.Pkg.Path()]
 		if gpk == nil {
-			return OpaqueVal{What: obj.Global.Pkg.Pkg.Name() + "." + obj.Global.Name()}
+			name := obj.Global.Pkg.Pkg.Name() + "." + obj.Global.Name()
+			if name == "io.EOF" {
+				return ErrVal{Nil: x.o.False(), Is: map[string]*Term{}, As: map[string]*Term{}, Data: map[string]*Term{"eofConst": x.o.True(), "isEOF": x.o.True()}}
+			}
+			return OpaqueVal{What: name}
 		}
 		v, err := x.globalValue(gpk, obj.Global.Name(), obj.T)
 		if err != nil {
@@ -564,6 +568,13 @@ func (x *Exec) valEq(st *State, a, b Val) *Term {
 	case ErrVal:
 		bv, ok := b.(ErrVal)
 		if ok {
+			// comparison with io.EOF: the decoder's schema says whether its error is io.EOF
+			if _, isC := bv.Data["eofConst"]; isC {
+				return o.And(o.Not(av.Nil), orFalse(o, av.Data["isEOF"]))
+			}
+			if _, isC := av.Data["eofConst"]; isC {
+				return o.And(o.Not(bv.Nil), orFalse(o, bv.Data["isEOF"]))
+			}
 			// identity of error values is not modelled; only nil-ness can be compared
 			if bv.Nil.IsTrue() {
 				return av.Nil
@@ -615,6 +626,27 @@ func (x *Exec) seqEq(a, b StrVal) *Term {
 	o := x.o
 	if a.Arr == b.Arr && a.Off == b.Off && a.Len == b.Len {
 		return o.True()
+	}
+	// strings.ToLower(s) compared with an ASCII literal: equality ignoring ASCII case (see the ToLower schema)
+	for _, pair := range [][2]StrVal{{a, b}, {b, a}} {
+		if src, ok := x.lowerOf[pair[0].Arr]; ok && len(pair[1].Alts) == 1 {
+			lit := pair[1].Alts[0].S
+			okLit := true
+			for i := 0; i < len(lit); i++ {
+				if lit[i] < 'a' || lit[i] > 'z' || lit[i] == 'k' || lit[i] == 's' {
+					okLit = false
+				}
+			}
+			if !okLit {
+				x.fail("strings.ToLower result compared with %q: only lower-case ASCII literals without k/s are modelled", lit)
+			}
+			cs := []*Term{o.Eq(src.Len, o.Idx(int64(len(lit))))}
+			for i := 0; i < len(lit); i++ {
+				c := o.SelByte(src.Arr, o.IdxAdd(src.Off, o.Idx(int64(i))))
+				cs = append(cs, o.Or(o.Eq(c, o.ConstI(tyByte, int64(lit[i]))), o.Eq(c, o.ConstI(tyByte, int64(lit[i])-32))))
+			}
+			return o.And(cs...)
+		}
 	}
 	n, ok := a.Len.ConstInt64()
 	if !ok {
